@@ -16,7 +16,7 @@ LEVEL = "exploration"
 BUDGET = {"quick": (8, 25), "thorough": (16, 800)}
 K = 2
 RULE = ("Two generated families. compose: an Ocp with 1-3 generated stages (own model, method, grid, N, fixed/free horizon, objective with integrals of t-dependent integrands, constraints), a parent-level "
-        "variable, coupling constraints (state continuity with parent variable, tf==t0) and parent objective; every stage is also built alone; decision vectors are transported stage-wise through variable "
+        "variable, coupling constraints (state continuity with parent variable, tf==t0; continuity declared on the parent or on either stage it connects) and parent objective; every stage is also built alone; decision vectors are transported stage-wise through variable "
         "dictionaries; oracle: f == sum of stage f + reference-evaluated parent terms, rows == union of stage rows + reference coupling rows. clone: a generated template (quadrature state, t in ODE and "
         "integrand, parameters, constraints, guesses) instantiated 1-3 times with/without overridden t0/T and one edited clone, versus the same content declared directly; oracle: equal f, row multiset, "
         "start point, parameter vector; template's declared lists unchanged. Non-trivial = >= 2 stages or a clone of a template with integral/quadrature/t; distinct = SHA-1 of case JSON.")
@@ -91,7 +91,13 @@ def strategy_(draw):
             rhs = ["at_t0", b, "s%d" % (i + 1)]
             if has_mv and draw(st.booleans()):
                 rhs = ["+", rhs, E.S("mv0")]
-            coupling.append({"lhs": [["-", ["at_tf", a, "s%d" % i], rhs]], "rel": "==", "rhs": [E.C(0.0)]})
+            cpl = {"lhs": [["-", ["at_tf", a, "s%d" % i], rhs]], "rel": "==", "rhs": [E.C(0.0)]}
+            if not E.syms_in(rhs) & {"mv0"}:
+                # the continuity condition may also be handed to one of the two stages it connects instead of the parent
+                on = gen.weighted(draw, [(None, 3), ("s%d" % i, 1), ("s%d" % (i + 1), 1)])
+                if on:
+                    cpl["on"] = on
+            coupling.append(cpl)
             if stages[i + 1]["t0"][0] == "free":
                 coupling.append({"lhs": [["-", ["tf", "s%d" % i], ["t0", "s%d" % (i + 1)]]], "rel": "==", "rhs": [E.C(0.0)]})
         if has_mv:
@@ -154,6 +160,8 @@ def classify(case):
             labs.append("free-time stage")
         if sp["vars"]:
             labs.append("parent variable")
+        if any(c.get("on") for c in sp["coupling"]):
+            labs.append("coupling declared on a sub-stage")
         return sorted(set(labs))
     labs = ["clone", "clones:%d" % len(case["clones"]), "tpl-method:" + case["template"]["method"]["cls"]] + ["tpl:" + f for f in tpl_features(case["template"])]
     if any("t0" in c or "T" in c for c in case["clones"]):
@@ -354,6 +362,14 @@ def check_clone(case, ctx):
 
 def check(case, ctx):
     return check_compose(case, ctx) if case["kind"] == "compose" else check_clone(case, ctx)
+
+
+def judge_exception(case, exc, fail):
+    # Every example hands coupling constraints to the parent; a version of rockit that refuses them on a sub-stage would still satisfy
+    # the property. Only a constraint that is accepted and then silently lost or altered counts.
+    if case["kind"] == "compose" and any(c.get("on") for c in case["spec"]["coupling"]):
+        return "reject"
+    return "violation"
 
 
 TECHNIQUE = "property-based testing (Hypothesis): differential composite-vs-stand-alone stages with dictionary transport and reference-evaluated coupling; differential clone-vs-direct declaration"
